@@ -668,6 +668,7 @@ func buildPreservationSet(files []parsedFile, cfg *Config) *preservationSet {
 	for i := range files {
 		for _, expr := range files[i].exprs {
 			collectProtectedMacroTemplateSymbols(expr, files[i].analysis.RootScope, protected)
+			collectProtectedMacroletSymbols(expr, files[i].analysis.RootScope, protected)
 		}
 	}
 	return protected
@@ -827,6 +828,57 @@ func collectProtectedMacroTemplateSymbols(expr *lisp.LVal, root *analysis.Scope,
 	}
 	for _, body := range expr.Cells[3:] {
 		walkMacroBodyForQuasiquote(body, macroScope, protected)
+	}
+}
+
+// collectProtectedMacroletSymbols protects every name a macrolet macro body
+// mentions.  The analyzer does not walk macrolet bodies (they are templates
+// and expansion-time code), so no reference inside one is ever rewritten:
+// renaming the definition a body refers to -- a global function named in its
+// template, a variable of the enclosing scope read while expanding -- would
+// leave the body pointing at a name that no longer exists.
+func collectProtectedMacroletSymbols(expr *lisp.LVal, root *analysis.Scope, protected *preservationSet) {
+	if expr == nil || root == nil || expr.Type != lisp.LSExpr || expr.IsQuoted() || len(expr.Cells) == 0 {
+		return
+	}
+	if expr.Cells[0].Type == lisp.LSymbol && expr.Cells[0].Str == "macrolet" && len(expr.Cells) > 1 && expr.Cells[1].Type == lisp.LSExpr {
+		scope := findScopeForNode(root, expr)
+		if scope != nil {
+			for _, binding := range expr.Cells[1].Cells {
+				if binding.Type != lisp.LSExpr || len(binding.Cells) < 3 {
+					continue
+				}
+				for _, body := range binding.Cells[2:] {
+					collectMacroletBodySymbols(body, scope, protected)
+				}
+			}
+		}
+	}
+	for _, child := range expr.Cells {
+		collectProtectedMacroletSymbols(child, root, protected)
+	}
+}
+
+func collectMacroletBodySymbols(node *lisp.LVal, scope *analysis.Scope, protected *preservationSet) {
+	if node == nil {
+		return
+	}
+	if node.Type == lisp.LSymbol {
+		name := node.Str
+		if name == "" || strings.Contains(name, ":") || strings.HasPrefix(name, "%") {
+			return
+		}
+		if sym := scope.Lookup(name); sym != nil {
+			protected.symbols[sym] = true
+			protected.symbolKeys[symbolLookupKey(sym)] = true
+		}
+		return
+	}
+	if node.Type != lisp.LSExpr {
+		return
+	}
+	for _, child := range node.Cells {
+		collectMacroletBodySymbols(child, scope, protected)
 	}
 }
 
